@@ -38,4 +38,44 @@ PLAN = {
         "rule": RULE_TRACE,
         "traces": [T("arith_rem", (300, 6000), (12, 14))],
     },
+    "C06": {
+        "level": "model_checking",
+        "rule": RULE_TRACE,
+        "traces": [T("cmp", (120, 3000), (12, 14))],
+    },
+    "C07": {
+        "level": "model_checking",
+        "rule": RULE_TRACE + "; grid07 = the complete structural grid of no_overlap at binary64: every exponent field of a (quick: every second one) x 7 significand classes x both signs x b at/just below/just above the half-ulp and quarter-ulp thresholds, zero, least subnormal, inf, NaN, both signs",
+        "traces": [T("grid07", (32, 16), (16, 16)), T("rand07", (3000, 60000), (4, 14))],
+    },
+    "C08": {
+        "level": "model_checking",
+        "rule": RULE_TRACE,
+        "traces": [T("frac", (500, 12000), (12, 14))],
+    },
+    "C09": {
+        "level": "model_checking",
+        "rule": RULE_TRACE + "; conv_small = From<i8|u8|i16|u16> and the round trip for every value of the type",
+        "traces": [T("conv", (600, 12000), (10, 14)), T("conv_small", (1, 1), (4, 16))],
+    },
+    "C10": {
+        "level": "model_checking",
+        "rule": RULE_TRACE + "; each operand tuple is expanded into every spelling (4 reference/value forms, 2 assignment forms, 3 pairings, 5 operators, trait wrappers); the determinism memo of the specification demands identical words",
+        "traces": [T("spell", (40, 1200), (12, 14))],
+    },
+    "C01": {
+        "level": "model_checking",
+        "rule": RULE_TRACE + "; prog = random programs of 50-200 calls over 8 registers with results fed back (the Normalised invariant is evaluated after every call)",
+        "traces": [T("prog", (12, 300), (8, 14)), T("arith_all", (100, 2000), (2, 6)), T("conv", (300, 6000), (2, 6)), T("frac", (200, 4000), (2, 4))],
+    },
+    "C11": {
+        "level": "exploration",
+        "rule": RULE_TRACE + "; the same seeded corpus is run by two builds of the harness (default features / --no-default-features) and the two traces are interleaved group by group: the determinism memo demands identical words across configurations; fma events are checked against the exact x*y+z",
+        "traces": [T("fma", (1500, 40000), (4, 8), "std"), T("fma", (1500, 40000), (4, 8), "nostd"),
+                   T("arith_all", (80, 2000), (4, 8), "std"), T("arith_all", (80, 2000), (4, 8), "nostd"),
+                   T("frac", (100, 2000), (2, 4), "std"), T("frac", (100, 2000), (2, 4), "nostd"),
+                   T("conv", (150, 3000), (2, 4), "std"), T("conv", (150, 3000), (2, 4), "nostd")],
+        "merge": [{"family": "arith_all", "variants": ["std", "nostd"]}, {"family": "frac", "variants": ["std", "nostd"]},
+                  {"family": "conv", "variants": ["std", "nostd"]}, {"family": "fma", "variants": ["std", "nostd"]}],
+    },
 }
